@@ -11,10 +11,11 @@ from netqasm.lang.parsing.binary import deserialize
 from netqasm.lang.parsing.text import parse_text_subroutine
 from netqasm.lang.subroutine import Subroutine
 
-PATHS = ("direct", "text", "setter", "instantiate", "template", "sdk")
+PATHS = ("direct", "text", "text+nv-transpiler", "setter", "instantiate", "template", "sdk")
+CLASSICAL = ("jmp", "bez", "bnz", "beq", "bne", "blt", "bge", "set", "add", "sub", "addm", "subm", "store", "load", "lea", "undef", "array", "ret_reg", "ret_arr")
 ASSUME = [
     "one out-of-range operand per vector, the others at in-range base values",
-    "paths: direct construction; the text assembler; Subroutine.app_id setter and Subroutine.instantiate(app_id) for the app id; a Template operand filled in by instantiate() for immediates of rotations; the SDK (rot_X/Y/Z numerator and denominator, constants of add / array initial values, the connection's app id) up to the serialised message",
+    "paths: direct construction; the text assembler; the text assembler followed by the NV transpiler (classical and branch instructions); Subroutine.app_id setter and Subroutine.instantiate(app_id) for the app id; a Template operand filled in by instantiate() for immediates of rotations; the SDK (rot_X/Y/Z numerator and denominator, constants of add / array initial values, the connection's app id) up to the serialised message",
     "wide values cross the TLC boundary as base-2^15 limbs",
     "text path: the text is what the real printer prints for the out-of-range instruction object (e.g. 'set R16 5')",
 ]
@@ -59,6 +60,11 @@ def attempt(path: str, v, cls, val):
         else:
             text = f"# NETQASM 0.0\n# APPID {app}\n{instr}\n"
             sub = parse_text_subroutine(text, flavour=isa.FLAVOURS[v["fl"]]())
+            if path == "text+nv-transpiler":
+                # the assembled (vanilla) subroutine goes through the NV transpiler before it is serialised
+                from netqasm.sdk.transpile import NVSubroutineTranspiler
+                sub = NVSubroutineTranspiler(sub).transpile()
+                return "bytes", describe(bytes(sub), "nv")
             b = bytes(sub)
     except Exception as ex:
         return "reject", f"{type(ex).__name__}: {ex}"[:160]
@@ -68,6 +74,8 @@ def attempt(path: str, v, cls, val):
 def applicable(path: str, v) -> bool:
     if path in ("direct", "text"):
         return True
+    if path == "text+nv-transpiler":
+        return v["fl"] == "vanilla" and v["mn"] in CLASSICAL
     if path in ("setter", "instantiate"):
         return v["kind"] == "app"
     if path == "template":
@@ -154,6 +162,8 @@ def run(prop: str, tier: str) -> int:
             for path in PATHS:
                 if not applicable(path, v):
                     continue
+                if path == "text+nv-transpiler" and row["expect"] == "bytes" and v["mn"] in ("jmp", "bez", "bnz", "beq", "bne", "blt", "bge"):
+                    continue        # (a lone branch with an in-range target past the end has nothing to be retargeted to: not a control)
                 got, info = attempt(path, v, cls, val)
                 evals += 1
                 if row["expect"] == "bytes":
